@@ -1,6 +1,6 @@
 from typing import List, Tuple
 
-from json_to_models.dynamic_typing import ImportPathList, MetaData
+from json_to_models.dynamic_typing import ImportPathList, MetaData, ModelMeta
 from json_to_models.models.base import GenericModelCodeGenerator
 from json_to_models.models.pydantic import PydanticModelCodeGenerator
 
@@ -19,6 +19,13 @@ class SqlModelCodeGenerator(PydanticModelCodeGenerator):
         # Warn! This generated code does not respect SQLModel Relationship and foreign_key, please add them manually.
         """.strip() + '\n' + body
         return imports, body
+
+    def __init__(self, model: ModelMeta, **kwargs):
+        super().__init__(model, **kwargs)
+        # id and pk keep their names: reserve them, so that another key with the same label ("p-k") gets a suffix
+        for name in ('id', 'pk'):
+            if name in self.model.type:
+                self._field_labels[name] = name
 
     def convert_field_name(self, name):
         if name in ('id', 'pk'):
